@@ -62,6 +62,8 @@ class Agent(object):
 
 
 CUR = None      # the Sched of the execution in progress (one per process)
+PRUNE = object()
+HANG_SECONDS = 120
 
 
 def cur():
@@ -88,9 +90,18 @@ class Sched(object):
         self.aborting = False
         self.failure = None
         self.log = []                   # harness-visible event log
+        self.log_hash = 0               # running hash of the log
         self.monitors = []              # callables run at every point
         self.switches = 0
         self.preemptions = 0
+        self.visited = None             # table: state key -> budget left
+        self.seen_here = set()          # keys first met in this execution
+        self.state_fn = None
+        self.budget = 0
+        self.exec_id = 0
+        self.used0 = 0                  # preemptions spent inside the prefix
+        self.state_keys = 0
+        self.in_state_fn = False
         drv = self._new_agent('driver')
         drv.ident = threading.get_ident()
         self.by_ident[drv.ident] = drv
@@ -116,6 +127,9 @@ class Sched(object):
 
     def event(self, *rec):
         self.log.append(rec)
+        if self.window:     # the scripted set-up before the window is the
+            # same in every execution (up to RSA padding randomness)
+            self.log_hash = hash((self.log_hash, rec))
 
     # -- enabledness ----------------------------------------------------
     def _enabled_one(self, a):
@@ -158,6 +172,25 @@ class Sched(object):
                     raise Nondeterminism(
                         'choice %d out of range (%d enabled) at point %d'
                         % (idx, len(en), i))
+            elif self.visited is not None and self.state_fn is not None:
+                # new territory: have we expanded this state before with at
+                # least as much preemption budget left?  Then every
+                # continuation from here is already covered.
+                self.in_state_fn = True
+                try:
+                    key = (self.state_fn(), sig)
+                finally:
+                    self.in_state_fn = False
+                self.state_keys += 1
+                key = hash(key)
+                left = self.budget - self.preemptions
+                if key not in self.seen_here:   # not a cycle of this run
+                    self.seen_here.add(key)
+                    prev = self.visited.lookup(key)
+                    if prev is None or prev < left:
+                        self.visited.store(key, left)
+                    else:
+                        return PRUNE
             self.points.append((len(en), cur_en, sig))
             self.choices.append(idx)
             if idx and cur_en:
@@ -178,6 +211,9 @@ class Sched(object):
                        'at %s' % (self.horizon, me, kind), me)
             return
         nxt = self._pick(me, kind)
+        if nxt is PRUNE:
+            self._fail('pruned', 'state already expanded', me)
+            return
         if nxt is None:
             self._fail('deadlock', 'no agent enabled: %s'
                        % ', '.join(map(repr, self.agents)), me)
@@ -190,7 +226,11 @@ class Sched(object):
         self.switches += 1
         self.current = nxt
         nxt.sem.release()
-        me.sem.acquire()
+        if me is self.driver:
+            if not me.sem.acquire(timeout=HANG_SECONDS):
+                raise ToolError(self.hang_report())
+        else:
+            me.sem.acquire()
         if self.aborting:
             raise Abort()
         if self.failure is not None and me is self.driver:
@@ -206,10 +246,27 @@ class Sched(object):
         me.sem.acquire()          # stays here until abort
         raise Abort()
 
+    def hang_report(self):
+        import traceback
+        frames = sys._current_frames()
+        out = ['scheduler hang: the driver was not woken for %d s; current=%r '
+               'agents=%r prefix=%r choices=%r'
+               % (HANG_SECONDS, self.current, self.agents, self.prefix,
+                  self.choices)]
+        for a in self.agents:
+            f = frames.get(a.ident)
+            if f is not None:
+                out.append('--- %r\n%s' % (a, ''.join(
+                    traceback.format_stack(f)[-12:])))
+        return '\n'.join(out)
+
     # -- primitives used by controlled objects ------------------------------
     def point(self, kind):
         if self.aborting:
             raise Abort()
+        if self.in_state_fn:
+            raise ToolError('scheduling point %r reached from inside the '
+                            'state function' % (kind,))
         me = self.me()
         if me is not self.current:
             raise ToolError('agent %r runs without the baton (current %r)'
@@ -283,6 +340,9 @@ class Sched(object):
             nxt = self._pick(a, 'finish')
         except BaseException as e:       # tool error inside a dying agent
             self.failure = ('tool', repr(e))
+            nxt = self.driver
+        if nxt is PRUNE:
+            self.failure = ('pruned', 'state already expanded')
             nxt = self.driver
         if nxt is None:
             self.failure = ('deadlock', 'no agent enabled after %r finished: '
@@ -518,7 +578,8 @@ def _on_instruction(code, offset):
     if hit is None:
         return sys.monitoring.DISABLE
     S = CUR
-    if S is None or not S.tracing or not S.window or S.aborting:
+    if S is None or not S.tracing or not S.window or S.aborting \
+            or S.in_state_fn:
         return None
     me = S.by_ident.get(threading.get_ident())
     if me is None or me is not S.current:
@@ -594,15 +655,21 @@ def install(conn_module):
 class Execution(object):
     """What one run leaves behind for the explorer."""
     __slots__ = ('points', 'choices', 'result', 'failure', 'steps',
-                 'preemptions', 'switches')
+                 'preemptions', 'switches', 'state_keys')
 
 
-def run_execution(body, prefix=(), tracing=False, horizon=20000, expect=None):
+_EXEC_COUNTER = [0]
+
+
+def run_execution(body, prefix=(), tracing=False, horizon=20000, expect=None,
+                  visited=None, budget=0):
     """Run body(S) as the driver agent under a fresh scheduler."""
     global CUR
     if CUR is not None:
         raise ToolError('nested executions')
     S = Sched(prefix, horizon, tracing, expect)
+    _EXEC_COUNTER[0] += 1
+    S.visited, S.budget, S.exec_id = visited, budget, _EXEC_COUNTER[0]
     CUR = S
     x = Execution()
     x.result = x.failure = None
@@ -618,9 +685,11 @@ def run_execution(body, prefix=(), tracing=False, horizon=20000, expect=None):
             CUR = None
     if S.failure and S.failure[0] == 'tool':
         raise ToolError('inside agent: %s' % S.failure[1])
-    if len(S.choices) < len(S.prefix):
+    if len(S.choices) < len(S.prefix) and not (
+            x.failure and x.failure[0] == 'pruned'):
         raise Nondeterminism('execution ended after %d choice points, prefix '
                              'has %d' % (len(S.choices), len(S.prefix)))
     x.points, x.choices = S.points, S.choices
     x.steps, x.preemptions, x.switches = S.steps, S.preemptions, S.switches
+    x.state_keys = S.state_keys
     return x
